@@ -494,9 +494,27 @@ def check_counts(G_: G, col: common.Collector, wit: dict[str, Any], dup: bool) -
     import pytato as pt
     from pytato import analysis as an
     g = G_.g
-    # expectation: nodes of the call-site namespace + one per function definition,
+    # expectation: the nodes of every namespace -- the top level and the body of each
+    # distinct function definition, each traversed once -- plus one per function definition;
     # dictionaries of named arrays excluded (documented)
-    objs = [n for n in G_.nodes if not isinstance(n, pt.DictOfNamedArrays)] + G_.functions
+    from vf.oracle import reflect
+    namespaces: list[list[Any]] = [[n for n in G_.nodes
+                                    if not isinstance(n, pt.DictOfNamedArrays)]]
+    for f in G_.all_functions:
+        seen_f: set[int] = set()
+        ns: list[Any] = []
+        for r in f.returns.values():
+            for n in reflect.walk(r, enter_functions=False, skip_kinds=reflect.MAPPER_INVISIBLE):
+                if id(n) not in seen_f and not isinstance(n, pt.DictOfNamedArrays):
+                    seen_f.add(id(n))
+                    ns.append(n)
+        namespaces.append(ns)
+    namespaces.append(list(G_.all_functions))
+    objs = [n for ns in namespaces for n in ns]
+    # "distinct" is decided per namespace (equal nodes of two bodies are two nodes)
+    distinct_ns: list[Any] = []
+    for ns in namespaces:
+        distinct_ns.extend({n: 1 for n in ns})
     distinct: dict[Any, int] = {}
     for n in objs:
         distinct[n] = distinct.get(n, 0) + 1
@@ -517,10 +535,10 @@ def check_counts(G_: G, col: common.Collector, wit: dict[str, Any], dup: bool) -
         col.violation(f"C20:num-nodes(count_duplicates):{tag}",
                       f"get_num_nodes(count_duplicates=True)={nd}, distinct objects "
                       f"{len(objs)}", wit)
-    if nn != len(distinct):
+    if nn != len(distinct_ns):
         col.violation(f"C20:num-nodes(distinct):{tag}",
                       f"get_num_nodes(count_duplicates=False)={nn}, distinct nodes "
-                      f"{len(distinct)}", wit)
+                      f"{len(distinct_ns)}", wit)
     et: dict[type, int] = {}
     for n in objs:
         et[type(n)] = et.get(type(n), 0) + 1
@@ -529,7 +547,7 @@ def check_counts(G_: G, col: common.Collector, wit: dict[str, Any], dup: bool) -
         col.violation(f"C20:type-counts(count_duplicates):{tag}:{','.join(bad)[:60]}",
                       f"type counts differ for {bad}", wit)
     et2: dict[type, int] = {}
-    for n in distinct:
+    for n in distinct_ns:
         et2[type(n)] = et2.get(type(n), 0) + 1
     if dict(tc_n) != et2:
         bad = sorted(t.__name__ for t in set(et2) | set(tc_n)
@@ -543,7 +561,8 @@ def check_counts(G_: G, col: common.Collector, wit: dict[str, Any], dup: bool) -
                       f"objects {distinct.get(bad[0], 0)}", wit)
     # call sites: every Call object, bodies included (documented in CallSiteCountMapper)
     from pytato.function import Call
-    calls = [n for n in G_.all_nodes if isinstance(n, Call)]
+    # (a Call object that hash-consing shares between two bodies is a call site of each)
+    calls = [n for n in objs if isinstance(n, Call)]
     if ncs != len(calls):
         col.violation(f"C20:num-call-sites:{tag}", f"reported {ncs}, Call objects {len(calls)}",
                       wit)
